@@ -15,7 +15,27 @@ Proof.
   unfold norm. rewrite unescape_no_amp by assumption. reflexivity.
 Qed.
 
-Ltac proj := repeat match goal with |- context [leaf _ ?o] => destruct o; cbn [leaf] end; cbn; repeat split; reflexivity.
+Lemma find_app_leaf g g' v rest :
+  find (fun k => text_eqb (tag_of k) g) (leaf g' v ++ rest) =
+  if text_eqb g' g then (match v with Some x => Some (Node g' (Some x) []) | None => find (fun k => text_eqb (tag_of k) g) rest end)
+  else find (fun k => text_eqb (tag_of k) g) rest.
+Proof. destruct v; cbn [leaf app find tag_of]; destruct (text_eqb g' g); reflexivity. Qed.
+Lemma find_leaf g g' v :
+  find (fun k => text_eqb (tag_of k) g) (leaf g' v) =
+  if text_eqb g' g then (match v with Some x => Some (Node g' (Some x) []) | None => None end) else None.
+Proof. destruct v; cbn [leaf find tag_of]; destruct (text_eqb g' g); reflexivity. Qed.
+Lemma find_cons g n rest :
+  find (fun k => text_eqb (tag_of k) g) (n :: rest) = if text_eqb (tag_of n) g then Some n else find (fun k => text_eqb (tag_of k) g) rest.
+Proof. reflexivity. Qed.
+Lemma find_nil g : find (fun k => text_eqb (tag_of k) g) [] = None.
+Proof. reflexivity. Qed.
+
+Ltac ev_eqb := repeat match goal with |- context [text_eqb ?a ?b] =>
+  let r := eval vm_compute in (text_eqb a b) in change (text_eqb a b) with r; cbv iota end.
+Ltac look := repeat (first [rewrite find_app_leaf | rewrite find_leaf | rewrite find_cons | rewrite find_nil
+                          | progress cbn [children_of txt_of tag_of app sub val]]; ev_eqb).
+Ltac fin := repeat match goal with |- context [match ?v with Some _ => _ | None => _ end] => destruct v end; reflexivity.
+Ltac proj := cbv zeta; repeat split; try (look; fin).
 
 (** each wrapper carries its request's account id, type, bank / broker id, dates and flags, and its TRNUID *)
 Lemma stmt_wrapper_carries c a t s e i u :
@@ -72,7 +92,7 @@ Lemma invstmt_wrapper_carries c a s e d i oo p b u :
   /\ val (sub "DTASOF" (sub "INCPOS" (sub "INVSTMTRQ" w))) = dtext d
   /\ val (sub "INCLUDE" (sub "INCPOS" (sub "INVSTMTRQ" w))) = flag p
   /\ val (sub "INCBAL" (sub "INVSTMTRQ" w)) = flag b.
-Proof. cbn [spec_wrapper]. unfold wrapper, acct_inv. destruct i as [[|]|]; proj. Qed.
+Proof. cbn [spec_wrapper]. unfold wrapper, acct_inv. destruct i as [[|]|]; cbn [app]; proj. Qed.
 
 (** the sign-on is the first child of the body and no other child is a sign-on *)
 Lemma msgset_name_not_signon m : text_eqb (msgset_name m) (T "SIGNONMSGSRQV1") = false.
@@ -103,9 +123,7 @@ Lemma signon_fields c d uid pw :
   /\ (truthy (org c) = true -> val (sub "ORG" (sub "FI" so)) = norm (org c) /\ val (sub "FID" (sub "FI" so)) = norm (fid c))
   /\ sub "USERKEY" so = None /\ sub "SESSCOOKIE" so = None.
 Proof.
-  unfold spec_signon. destruct (truthy (org c)), (version c <? 103);
-  repeat match goal with |- context [leaf _ ?o] => destruct o; cbn [leaf] end; cbn;
-  repeat split; try reflexivity; intros; try discriminate; repeat split; reflexivity.
+  unfold spec_signon. cbv zeta. destruct (truthy (org c)); repeat split; intros; try discriminate; try (look; fin).
 Qed.
 
 (** the recorded finding: a user id containing an entity reference is not what is written *)
